@@ -9,9 +9,10 @@ through the deprecated `wrapper`) on a chosen application graph and machine
 with SYMBOLIC net keys and masks (bit-vectors inside a W-bit window under a
 shared symbolic 32-bit prefix, well-formed, pairwise orthogonal), symbolic
 table targets and a symbolic set of dead links (one solver boolean per directed
-link, at most one dead).  Placement, allocation and routing run concretely on
-the chosen structure (every RNG outcome of the random placer, of the annealer's
-initial placement and of the router's tie-breaks being an explored choice);
+link, at most one -- in a few units two or three -- dead).  Placement,
+allocation and routing run concretely on the chosen structure (every RNG
+outcome of the random placer, of the annealer's initial placement and of the
+router's tie-breaks being an explored choice);
 table generation and minimisation run on the symbolic keys.  The oracle then
 injects, for every net, a packet whose key `pk` is a further symbolic 32-bit
 value assumed to match the net's key/mask, and WALKS it over the final
@@ -118,13 +119,17 @@ META = {
         "matching its net), one packet per net; the table targets "
         "(0..nets+1); in the links=sym units the membership of every "
         "directed link of every working chip in machine.dead_links, at most "
-        "one dead (in addition to a mesh's off-edge links and the device "
-        "link); in the links=one units one concretely chosen dead link "
+        "one dead -- at most K dead in the units marked K=2 / K=3 (quick: "
+        "two 2x2 mesh units with K=2; thorough adds 2x2 mesh K=3 and 2x3 "
+        "mesh, 2x2 torus, 3x3 mesh and the deprecated wrapper with K=2) -- "
+        "in addition to a mesh's off-edge links and the device link, each "
+        "direction independently; in the links=one units one concretely "
+        "chosen dead link "
         "(none, or every directed link in turn).  The cross product of the "
         "menus is NOT explored inside one unit: a unit fixes (graph, "
         "machine, placer, method, radius, target mode, link mode, dead-chip "
         "mode, demand patterns, W, cap, pin, rng, tb, entry point) and its "
-        "name in the evidence says which.  thorough (1010 units, ~88 000 "
+        "name in the evidence says which.  thorough (1017 units, ~90 000 "
         "paths) = every combination of {6 graphs} x {1x1, 2x2, 3x3} x "
         "{mesh, torus} x {6 placers} x {4 methods} by hand, plus both "
         "wrappers with every placer on 2x2 and 3x3 (120 units), plus four "
@@ -139,11 +144,12 @@ META = {
         "an estimated <= 800 paths remain (order: links one -> sym, dead "
         "chip, demand patterns, links, symbolic target, pins, tb=4, real "
         "RNG); every unit on a 3x3 torus has tb <= 5.  quick = a fixed core "
-        "set of 22 units plus a VERIF_SEED-selected subset of the 1x1 / 2x2 "
+        "set of 24 units plus a VERIF_SEED-selected subset of the 1x1 / 2x2 "
         "grid (~45-50 units, ~5 000 paths).",
     "stubs": [
         "machine.dead_links is harness.c03.SymLinkSet in the links=sym units "
-        "(one solver boolean per directed link under 'at most 1 dead'; "
+        "(one solver boolean per directed link under 'at most K dead', K = 1 "
+        "unless the unit says K=2 or K=3; "
         "copy() shares the variables) and machine.has_wrap_around_links is "
         "c03's non-forking equivalent (proved equal to the real method by "
         "C03's `wrap` units for 1x1, 2x2, 3x3); all other units use a plain "
@@ -203,7 +209,8 @@ META = {
     "outside_claim": [
         "graphs, machines and fault maps beyond the menus: more than 4 "
         "vertices or 3 nets, machines larger than 3x3, more than one dead "
-        "link or dead chip, net weights other than 1, same-chip constraints, "
+        "link (two or three in the seven K=2 / K=3 units) or dead chip, "
+        "net weights other than 1, same-chip constraints, "
         "alignment constraints other than the wrapper's own SDRAM alignment",
         "keys/masks that differ outside a window of 3 bits; non-orthogonal "
         "or ill-formed keys; tables of more than 3 entries per chip (second "
@@ -839,6 +846,7 @@ def _paths(p):
             n *= 8 if p["torus"] else 6
         if p["placer"] == "rcm":
             n *= nlinks + 1
+        n *= 4 ** (int(p["K"]) - 1)
     elif p["links"] == "one":
         n *= nlinks + 1
     if p["torus"] and nchips > 1:
@@ -1009,6 +1017,12 @@ def units(tier, seed):
          links="none", deadchip="any", radius=0, wit=HOP)
     core("tri", 2, 2, True, "sequential", "rdr", cap=2, links="sym",
          wit=HOP)
+    # up to two dead links (one-directional, anywhere): a tree cut in two
+    # places, repaired twice by avoid_dead_links
+    core("fan", 2, 2, False, "sequential", "none", cap=2, links="sym", K=2,
+         wit=HOP + ("no-mapping",))
+    core("duo", 2, 2, False, "sequential", "rdr", cap=2, links="sym", K=2,
+         wit=HOP + ("no-mapping",))
     # the device vertex
     core("device", 2, 2, False, "sequential", "rdr", cap=2, dems=(0, 1, 2),
          links="one", wit=HOP)
@@ -1052,6 +1066,17 @@ def units(tier, seed):
                 for k, method in enumerate(METHODS):
                     add(_combo(graphs[(i + j + k + 1) % 6], w, h, torus,
                                placer, method, via="pnr"))
+        # more dead links
+        core("fan", 2, 2, False, "sequential", "rdr", cap=2, links="sym",
+             K=3, wit=HOP + ("no-mapping",))
+        core("fan", 2, 3, False, "sequential", "none", cap=2, links="sym",
+             K=2, wit=HOP)
+        core("duo", 2, 2, True, "sequential", "none", cap=2, links="sym",
+             K=2, wit=HOP)
+        core("fan", 2, 2, False, "sequential", "rdr", via="wrapper", cap=2,
+             links="sym", K=2, wit=HOP + ("no-mapping",))
+        core("tri", 3, 3, False, "hilbert", "rdr", cap=2, links="sym", K=2,
+             pin=1, wit=HOP)
         # the full window on three nets
         core("merge", 1, 1, False, "sequential", "oc", cap=7, W=3,
              wit=("mapped", "core-delivery"))
